@@ -4,21 +4,44 @@ C11 — Ill-formed CATS text is rejected, never silently accepted.
 Property theorems over `Model/Cats/{Lexer,Parser}.lean`; the corruption operators are defined in
 `Model/Cats/Corrupt.lean` (`Op`, `variants`, `corrupt`) and applied for the harness by `driver_c11`.
 
-What is proved here, for ALL documents:
-* `parse_fail_fast`: a document that contains a line which no line parser accepts in any context is rejected as a
-  whole (the result type is `Except`: an error carries no declarations, so no prefix or remainder is returned);
-  `accepted_lines` is the same statement read forwards;
-* `missing_final_newline_rejected`: whatever the content;
-* `using_line_rejected`: a line that starts with `using ` is accepted only as a well-formed alias, with the operator
-  corollaries for alias declarations (unsupported width, one-character name, wrong case class, missing `=`, missing
-  operand, unknown type keyword);
-* `unknown_attribute_rejected`: `@x…` is rejected in every context (the operator `unknown-attribute`).
-The remaining operators of the catalogue (unknown keyword at other sites, unknown transform / condition operator,
-missing bracket, member outside its declaration, struct without members, wrong arity) have no theorem yet; they are
-covered by the correspondence run only.
+Shape of the statements. `LineRejected t` (`Proofs/CatsParserLemmas.lean`) says that NO line parser accepts the text
+`t` in ANY context (top level in its three attribute modes, enum body, struct body with and without pending
+attribute lines). `parse_fail_fast` turns that into the document statement, for all documents: a document that
+contains such a line (as a physical line that ends in a line end, up to leading blanks and a `\r`) is rejected as a
+whole; the result type is `Except`, an error carries no declarations, so no prefix or remainder is returned.
+Every operator theorem below is either of this line-local kind, quantified over all well-formed names / types /
+numbers and over an arbitrary rest of the line, or (for the two structural operators and the missing final line
+end) a statement about whole documents.
+
+Per operator of the catalogue:
+* bad-width ............ `alias_type_rejected`, `bad_width_alias_rejected` (alias lines); other sites of an integer
+                         type (member types, enum base, array elements, `sizeof`, `make_*`): no theorem
+* wrong-case ........... `wrong_case_alias_name_rejected` (declared name of an alias); member / enum / struct names: none
+* one-char-name ........ `one_char_alias_name_rejected` (alias); other names: none
+* unknown-keyword ...... `unknown_statement_keyword_rejected` (every statement keyword at the start of a line, and the
+                         unnamed `inline`), `unknown_member_keyword_rejected` (`array`, `make_reserved`, `sizeof`,
+                         `inline` after `=`), `unknown_const_keyword_rejected` (`make_const`), `unknown_if_rejected`;
+                         `struct` after a modifier (`abstract xstruct`): none
+* unknown-attribute .... `unknown_attribute_rejected`
+* unknown-transform .... `unknown_transform_rejected` (the transform of the first comparer entry; later entries: none)
+* unknown-cond-op ...... `unknown_condition_operator_rejected`
+* missing-operand ...... `missing_operand_alias_rejected` (alias); other sites: none
+* missing-bracket ...... `missing_open_bracket_rejected` (`array`, `sizeof`, `make_reserved`),
+                         `missing_close_bracket_array_rejected`; `make_const(`, `binary_fixed(`, attribute
+                         parentheses: none
+* missing-equals ....... `missing_equals_alias_rejected` (alias); member and enum value lines: none
+* missing-final-newline  `missing_final_newline_rejected` (all documents)
+* dedented-member ...... `dedented_member_rejected` (printed documents; any member of any struct)
+* empty-struct ......... `empty_struct_rejected` (printed documents; any struct)
+* wrong-arity .......... `wrong_arity_flags_rejected`, `wrong_arity_variadic_rejected`, `wrong_arity_size_rejected`;
+                         the other fixed-arity attributes: none
+The sites without a theorem are covered by the correspondence run only (every operator x every site on generated
+and shipped documents, model and lark both reject). The tie between the text produced by `Corrupt.variants` and the
+line shapes used here is also by correspondence only; `Corrupt` is not reasoned about.
 -/
 import SymbolVerif.Proofs.CatsParserLemmas
 import SymbolVerif.Proofs.CatsScanLemmas
+import SymbolVerif.Proofs.CatsRejectLines
 import SymbolVerif.Model.Cats.Corrupt
 namespace SymbolVerif.C11
 open SymbolVerif.Cats SymbolVerif.Cats.Lexer SymbolVerif.Cats.Parser
@@ -216,6 +239,109 @@ theorem unknown_attribute_rejected (r : Chars) : LineRejected ('@' :: 'x' :: r) 
     have e2 : propertyName ('@' :: 'x' :: r) = none := propertyName_none_of_head _ _ hat (by decide)
     have e3 : lit "__value__" ('@' :: 'x' :: r) = none := lit_none_of_head "__value__" '_' _ rfl _ _ hat (by decide)
     cases afterAttrs <;> simp only [parseStructLine, e1, e2, e3, hlitAt, hfield, bind, Option.bind, Option.map, Bool.false_eq_true, ↓reduceIte]
+
+/-! ### unknown keywords, operators and transforms -/
+
+/-- Operator `unknown-keyword` at the start of a line: `xusing Foo …`, `xstruct Foo`, `xenum Foo : …`, `ximport "…"`,
+    `xabstract struct Foo`, `xinline Foo` — a word that begins with `x`, then a blank, then anything but `=`. -/
+theorem unknown_statement_keyword_rejected (c : Char) (w : Chars) (hall : (c :: w).all isPropChar = true)
+    (a : Char) (rest : Chars) (ha : isWs a = false) (hne : a ≠ '=') :
+    LineRejected ('x' :: (c :: w) ++ ' ' :: a :: rest) :=
+  unknown_statement_keyword (c :: w) c w rfl hall a rest ha hne
+
+/-- Operator `unknown-keyword` on the keyword after `=` in a member line: `name = xarray(…)`, `name = xsizeof(…)`,
+    `name = xmake_reserved(…)`, `name = xinline Foo`. -/
+theorem unknown_member_keyword_rejected (name : String) (hn : IsMemberName name) (rest : Chars) :
+    LineRejected (name.toList ++ ' ' :: '=' :: ' ' :: 'x' :: rest) :=
+  unknown_member_keyword name hn rest
+
+/-- Operator `unknown-keyword` on `make_const`: `NAME = xmake_const(…)`. -/
+theorem unknown_const_keyword_rejected (name : String) (hn : IsConstantName name) (rest : Chars) :
+    LineRejected (name.toList ++ ' ' :: '=' :: ' ' :: 'x' :: rest) :=
+  unknown_const_keyword name hn rest
+
+/-- Operator `unknown-keyword` on `if`: `name = T xif …` for every well-formed member type `T`. -/
+theorem unknown_if_rejected (name : String) (hn : IsMemberName name) (t : FieldType) (ht : WFType t) (rest : Chars) :
+    LineRejected (name.toList ++ ' ' :: '=' :: ' ' :: (t.render.toList ++ ' ' :: 'x' :: rest)) :=
+  unknown_if_keyword name hn t ht rest
+
+/-- Operator `unknown-cond-op`: `name = T if n xOP …` and `name = T if CONST xOP …`. -/
+theorem unknown_condition_operator_rejected (name : String) (hn : IsMemberName name) (t : FieldType) (ht : WFType t)
+    (rest : Chars) :
+    (∀ n : Nat, LineRejected (name.toList ++ ' ' :: '=' :: ' ' ::
+      (t.render.toList ++ ' ' :: 'i' :: 'f' :: ' ' :: ((toString n).toList ++ ' ' :: 'x' :: rest)))) ∧
+    (∀ c : String, IsConstantName c → LineRejected (name.toList ++ ' ' :: '=' :: ' ' ::
+      (t.render.toList ++ ' ' :: 'i' :: 'f' :: ' ' :: (c.toList ++ ' ' :: 'x' :: rest)))) :=
+  ⟨fun n => unknown_condition_operator name hn t ht _ (.int n) (conditionValue_num n) rest,
+   fun c hc => unknown_condition_operator name hn t ht _ (.str c) (conditionValue_const c hc) rest⟩
+
+/-- Operator `unknown-transform`: `@comparer(member!xtransform…`. -/
+theorem unknown_transform_rejected (p : String) (hp : IsPropName p) (rest : Chars) :
+    LineRejected ('@' :: 'c' :: 'o' :: 'm' :: 'p' :: 'a' :: 'r' :: 'e' :: 'r' :: '(' :: (p.toList ++ '!' :: 'x' :: rest)) :=
+  unknown_transform p hp rest
+
+/-! ### brackets and arities -/
+
+/-- Operator `missing-bracket`, opening parenthesis: after `array`, `sizeof`, `make_reserved` comes something else. -/
+theorem missing_open_bracket_rejected (name : String) (hn : IsMemberName name) (c : Char) (rest : Chars)
+    (hws : isWs c = false) (hc : c ≠ '(') :
+    LineRejected (name.toList ++ ' ' :: '=' :: ' ' :: 'a' :: 'r' :: 'r' :: 'a' :: 'y' :: c :: rest) ∧
+    LineRejected (name.toList ++ ' ' :: '=' :: ' ' :: 's' :: 'i' :: 'z' :: 'e' :: 'o' :: 'f' :: c :: rest) ∧
+    LineRejected (name.toList ++ ' ' :: '=' :: ' ' :: 'm' :: 'a' :: 'k' :: 'e' :: '_' :: 'r' :: 'e' :: 's' :: 'e' :: 'r' :: 'v' :: 'e' :: 'd' :: c :: rest) :=
+  ⟨missing_open_bracket_array name hn c rest hws hc, missing_open_bracket_sizeof name hn c rest hws hc,
+   missing_open_bracket_reserved name hn c rest hws hc⟩
+
+/-- Operator `missing-bracket`, closing parenthesis of an array type: the member line with the printed array type
+    cut before its `)` is rejected (counted, sized and fill arrays, every element type). -/
+theorem missing_close_bracket_array_rejected (name : String) (hn : IsMemberName name) (a : ArrayType) (ha : WFArray a) :
+    ∃ text, a.render.toList = text ++ [')'] ∧ LineRejected (name.toList ++ ' ' :: '=' :: ' ' :: text) :=
+  missing_close_bracket_array name hn a ha
+
+/-- Operator `wrong-arity`: a flag attribute with an argument list. -/
+theorem wrong_arity_flags_rejected :
+    LineRejected "@is_aligned(ab)".toList ∧ LineRejected "@is_size_implicit(ab)".toList ∧
+    LineRejected "@is_bitwise(ab)".toList ∧ LineRejected "@is_byte_constrained(ab)".toList :=
+  wrong_arity_flags
+
+/-- Operator `wrong-arity`: a variadic attribute without arguments. -/
+theorem wrong_arity_variadic_rejected : LineRejected "@discriminator()".toList ∧ LineRejected "@comparer()".toList :=
+  wrong_arity_empty
+
+/-- Operator `wrong-arity`: `@size(member, …` (a second argument). -/
+theorem wrong_arity_size_rejected (p : String) (hp : IsPropName p) (rest : Chars) :
+    LineRejected ('@' :: 's' :: 'i' :: 'z' :: 'e' :: '(' :: (p.toList ++ ',' :: rest)) :=
+  wrong_arity_size p hp rest
+
+/-! ### structural operators, on printed documents -/
+
+/-- Operator `empty-struct`: in the text printed for well-formed declarations, a struct that has lost all its member
+    lines makes the parser reject the document, wherever the struct stands. -/
+theorem empty_struct_rejected (pre post : Schema) (d : Option String) (name : String) (hpre : WFDecls pre)
+    (hpost : WFDecls post) (hd : d ∈ structDispositions) (hn : IsTypeName name) :
+    ∃ e, parse (Printer.print (pre ++ .struct { disposition := d, name := name, fields := [] } :: post)).toList = .error e :=
+  Parser.empty_struct_rejected pre post d name hpre hpost hd hn
+
+/-- Operator `dedented-member`: the text printed for well-formed declarations, with the line of one member of one
+    struct moved to the outer level (`dedentedLayout`; `dedented_member_text` shows that it differs from the printed
+    text exactly by the tab of that line), is rejected: for every position of the struct and of the member. -/
+theorem dedented_member_rejected (pre post : Schema) (d : Option String) (name : String) (before : List Member)
+    (m : Member) (after : List Member) (hpre : WFDecls pre) (hpost : WFDecls post) (hd : d ∈ structDispositions)
+    (hn : IsTypeName name) (hb : ∀ x ∈ before, WFMember x) (hm : WFMember m) (ha : ∀ x ∈ after, WFMember x) :
+    ∃ e, parse (unlinesC ((specPLines (dedentedLayout pre post d name before m after)).map PLine.chars)) = .error e :=
+  Parser.dedented_member_rejected pre post d name before m after hpre hpost hd hn hb hm ha
+
+/-- the dedented text and the printed text consist of the same lines, except that the member's line has lost its tab -/
+theorem dedented_member_text (pre post : Schema) (d : Option String) (name : String) (before : List Member) (m : Member)
+    (after : List Member) :
+    ∃ A B, specPLines (docSpecs true (pre ++ .struct { disposition := d, name := name, fields := before ++ m :: after } :: post)) =
+        A ++ PLine.code true m.render.toList :: B ∧
+      specPLines (dedentedLayout pre post d name before m after) = A ++ PLine.code false m.render.toList :: B :=
+  dedentedLayout_lines pre post d name before m after
+
+/-- a member line is never a top-level statement (what makes `dedented-member` fail where the line stands) -/
+theorem member_outside_declaration_rejected (mode : TopMode) (m : Member) (h : WFMember m) :
+    parseTopLine mode m.render.toList = none :=
+  parseTopLine_member_none mode m h
 
 /-! ### non-vacuity -/
 
